@@ -9,6 +9,7 @@ import (
 	"os"
 	"path/filepath"
 	"runtime/debug"
+	"strconv"
 	"strings"
 	"time"
 
@@ -201,6 +202,107 @@ func histMode(work string) {
 	}
 }
 
+// gostrings mode: what Go's strings package returns.  Line: <Func> {s:<hex> | i:<int> | l:<hex>,<hex>,...}*
+func encS(s string) string { return "s:" + hex.EncodeToString([]byte(s)) }
+func encB(b bool) string {
+	if b {
+		return "b:1"
+	}
+	return "b:0"
+}
+func encL(l []string) string {
+	if len(l) == 0 {
+		return "l:-"
+	}
+	parts := make([]string, len(l))
+	for i, e := range l {
+		parts[i] = hex.EncodeToString([]byte(e))
+	}
+	return "l:" + strings.Join(parts, ",")
+}
+
+func goStringsMode() {
+	in := bufio.NewReaderSize(os.Stdin, 1<<20)
+	out := bufio.NewWriter(os.Stdout)
+	defer out.Flush()
+	for {
+		line, err := in.ReadString('\n')
+		line = strings.TrimRight(line, "\r\n")
+		if line != "" {
+			f := strings.Split(line, " ")
+			S := func(i int) string { b, _ := hex.DecodeString(strings.TrimPrefix(f[i], "s:")); return string(b) }
+			I := func(i int) int { n, _ := strconv.Atoi(strings.TrimPrefix(f[i], "i:")); return n }
+			L := func(i int) []string {
+				body := strings.TrimPrefix(f[i], "l:")
+				if body == "-" {
+					return []string{}
+				}
+				parts := strings.Split(body, ",")
+				res := make([]string, len(parts))
+				for k, p := range parts {
+					b, _ := hex.DecodeString(p)
+					res[k] = string(b)
+				}
+				return res
+			}
+			var r string
+			switch f[0] {
+			case "Index":
+				r = fmt.Sprintf("i:%d", strings.Index(S(1), S(2)))
+			case "Contains":
+				r = encB(strings.Contains(S(1), S(2)))
+			case "Join":
+				r = encS(strings.Join(L(1), S(2)))
+			case "HasPrefix":
+				r = encB(strings.HasPrefix(S(1), S(2)))
+			case "HasSuffix":
+				r = encB(strings.HasSuffix(S(1), S(2)))
+			case "Count":
+				r = fmt.Sprintf("i:%d", strings.Count(S(1), S(2)))
+			case "Split":
+				r = encL(strings.Split(S(1), S(2)))
+			case "Repeat":
+				if I(2) < 0 {
+					r = "panic"
+				} else {
+					r = encS(strings.Repeat(S(1), I(2)))
+				}
+			case "Replace":
+				r = encS(strings.Replace(S(1), S(2), S(3), I(4)))
+			case "ReplaceAll":
+				r = encS(strings.ReplaceAll(S(1), S(2), S(3)))
+			case "Cut":
+				a, b, c := strings.Cut(S(1), S(2))
+				r = encS(a) + " " + encS(b) + " " + encB(c)
+			case "CutPrefix":
+				a, c := strings.CutPrefix(S(1), S(2))
+				r = encS(a) + " " + encB(c)
+			case "CutSuffix":
+				a, c := strings.CutSuffix(S(1), S(2))
+				r = encS(a) + " " + encB(c)
+			case "TrimPrefix":
+				r = encS(strings.TrimPrefix(S(1), S(2)))
+			case "TrimSuffix":
+				r = encS(strings.TrimSuffix(S(1), S(2)))
+			case "TrimLeft":
+				r = encS(strings.TrimLeft(S(1), S(2)))
+			case "TrimRight":
+				r = encS(strings.TrimRight(S(1), S(2)))
+			case "Trim":
+				r = encS(strings.Trim(S(1), S(2)))
+			case "TrimSpace":
+				r = encS(strings.TrimSpace(S(1)))
+			default:
+				r = "unknown"
+			}
+			fmt.Fprintln(out, r)
+		}
+		if err != nil {
+			return
+		}
+	}
+}
+
 func main() {
 	if len(os.Args) < 2 {
 		fmt.Fprintln(os.Stderr, "usage: tshdump lex | pipe <workdir>")
@@ -213,6 +315,8 @@ func main() {
 		pipeMode(os.Args[2])
 	case "hist":
 		histMode(os.Args[2])
+	case "gostrings":
+		goStringsMode()
 	default:
 		os.Exit(2)
 	}
